@@ -220,7 +220,7 @@ func handleLine(cur **Contract, out *[]*Contract, pkgPath, text, line string) er
 	if kw == "spec" || kw == "ghost" || kw == "ghostvar" || kw == "frame" || kw == "owned" {
 		return nil
 	}
-	if kw == "copy" || kw == "lanes8" || kw == "readonly" || kw == "noescape" || kw == "fieldorder" || kw == "storesvia" || kw == "unrolled" {
+	if kw == "copy" || kw == "lanes8" || kw == "readonly" || kw == "noescape" || kw == "fieldorder" || kw == "decodes" || kw == "storesvia" || kw == "unrolled" {
 		*cur = nil
 		return nil
 	}
